@@ -761,6 +761,12 @@ func init() {
 		return []string{"SELECT", g.pick("0", "1", "2", "15", "16", "-1", "1", "0", "abc")}
 	})
 	add("db", 3, func(g *G) []string { return []string{g.pick("FLUSHDB", "FLUSHALL")} })
+	// transactions that change the selected database half-way (D25) and flush what is selected by then
+	add("db", 4, func(g *G) []string { return []string{"MULTI"} })
+	add("db", 5, func(g *G) []string { return []string{"EXEC"} })
+	add("db", 1, func(g *G) []string { return []string{"DISCARD"} })
+	add("db", 4, func(g *G) []string { return []string{"GET", g.Key()} })
+	add("tx", 2, func(g *G) []string { return []string{"SELECT", g.pick("0", "1", "2", "1", "0", "16")} })
 	add("db mixed", 3, func(g *G) []string { return []string{"DBSIZE"} })
 	add("db", 10, func(g *G) []string { return []string{"SET", g.Key(), g.Val()} })
 	add("db mixed tx", 2, func(g *G) []string {
